@@ -312,3 +312,38 @@ def run(prog, chk):
     if not any((path(x) or "").endswith("contains_text_delim") for (b, i, r, n) in wc.eval_sites() for x in [n] if n.get("k") == "member"):
         raise Broken("write_char no longer consults contains_text_delim")
     c18.accumulator_rule(prog, r4)
+
+    r5 = chk.rule("R5-fold-point-semicolon-guard", "fold_line returns a fold point chosen by its semicolon guard only when the character "
+                  "tested for `;` is the one at the returned index - the character that will start the next physical line of the "
+                  "text field (a `;` there would close the field)", primary=False, floor=3)
+    fl = prog.fn("fold_line")
+    n5 = 0
+    from ..facts import show
+    for blk in fl.blocks.values():
+        cnd = cfgq.cond_of(fl, blk)
+        if cnd is None or len(blk.succs) != 2:
+            continue
+        cs = strip(cnd)
+        if not (isinstance(cs, dict) and cs.get("k") == "bin" and cs.get("op") == "!=" and const(cs.get("rhs")) == 0x3B):
+            continue
+        l = strip(cs.get("lhs"))
+        if not (isinstance(l, dict) and l.get("k") == "index" and path(strip(l.get("base"))) == "line"):
+            continue
+        idx = show(strip(l.get("idx")))
+        # returns reached only through the true edge of this test (directly or via the rest of the && chain)
+        reach_true = cfgq.reach(fl, [blk.succs[0]]) if blk.succs[0] is not None else set()
+        cands = [(rt.get("l") or 0, b2, rt) for (b2, i2, r2, rt) in fl.returns()
+                 if rt.get("e") is not None and b2.id in reach_true and (rt.get("l") or 0) >= (blk.term.get("l") or 0)]
+        # the return this guard protects: the nearest one below it (`|| for_prefix` offers a second way there)
+        for (ln, b2, rt) in sorted(cands, key=lambda t: t[0])[:1]:
+            n5 += 1
+            got = show(strip(rt.get("e")))
+            key = "fold_line:L%s:line[%s]" % (blk.term.get("l"), idx)
+            if got == idx:
+                r5.ok(key, "returns the tested index")
+            else:
+                r5.violation(fl.file, fl.name, rt.get("l"), "fold-guard-index:%s" % idx,
+                             "fold_line returns `%s` (the next physical line starts with line[%s]) after testing line[%s] for a semicolon: "
+                             "a `;` at the start of the continuation line is not excluded" % (got, got, idx))
+    if n5 < 3:
+        raise Broken("only %d semicolon-guarded fold points found in fold_line" % n5)
